@@ -356,7 +356,19 @@ func VerifC13Precedence() {
 func VerifC13Shared() {
 	zv.Stub("(*net/http.Client).Do", c13Do)
 	tr := c13QuietRT{resp: &http.Response{StatusCode: 200, Status: "200 OK", Header: http.Header{"Content-Type": {"application/json"}}}}
-	rt := New("h", "/", []string{"http"})
+	// 0: client created by an earlier call; 1: created by this very call;
+	// 2: a caller-supplied client without a transport of its own (requests then
+	// travel over http.DefaultTransport, replaced by the scripted one here)
+	form := zv.Choose("client", 3)
+	var rt *Runtime
+	if form == 2 {
+		old := http.DefaultTransport
+		http.DefaultTransport = tr
+		defer func() { http.DefaultTransport = old }()
+		rt = NewWithClient("h", "/", []string{"http"}, &http.Client{})
+	} else {
+		rt = New("h", "/", []string{"http"})
+	}
 	rt.Transport = tr
 	c13Seen = nil
 	mkOp := func(path string, got *runtime.ClientResponse) *runtime.ClientOperation {
@@ -370,7 +382,7 @@ func VerifC13Shared() {
 			})}
 	}
 	var r0, r1 runtime.ClientResponse
-	if zv.Choose("client-already-created", 2) == 1 {
+	if form == 0 {
 		if _, err := rt.Submit(mkOp("/warm", &r0)); err != nil {
 			zv.Assert("warm-up-succeeds", false)
 		}
